@@ -368,6 +368,9 @@ func runC11(c *Ctx) error {
 	}
 	prods = nil
 	if c.Replay == "" {
+		if err := c11Reregister(c); err != nil {
+			return err
+		}
 		if err := c11Burst(c); err != nil {
 			return err
 		}
